@@ -27,7 +27,7 @@ func (p *Prog) writeReplay(replayDir, id string, o *Obligation, qdir string) str
 		"meaning":    verdictMeaning(o.Verdict),
 		"reproduced_on_real_code": false,
 	}
-	if o.Facts != nil {
+	if o.Facts != nil && o.NFacts <= len(o.Facts) {
 		q := p.BuildQuery(o, nil)
 		qpath := filepath.Join(replayDir, sanitize(o.Name)+".smt2")
 		os.WriteFile(qpath, []byte(q), 0o644)
@@ -348,6 +348,15 @@ func cexprGo(e *CExpr, p *Prog) (string, bool) {
 			return "len(" + as[0] + ")", true
 		case "isNil":
 			return "govcIsNil(" + as[0] + ")", true
+		}
+		if m, ok := p.cs.Macros[e.Name]; ok && len(m.Params) == len(as) {
+			// expand textually through a closure
+			body, ok := cexprGo(m.Body, p)
+			if !ok {
+				return "", false
+			}
+			_ = body
+			return "", false
 		}
 		if sd, ok := p.specs[e.Name]; ok && sd.Tuple == nil {
 			return e.Name + "(" + strings.Join(as, ", ") + ")", true
